@@ -56,6 +56,8 @@ pub struct VerifProbe {
     pub idle_timeout: Option<Duration>,
     /// Whether 0-RTT keys are currently held
     pub has_zero_rtt_keys: bool,
+    /// Number of packets authenticated so far
+    pub authed_packets: u64,
 }
 
 /// Stream accounting snapshot
@@ -166,6 +168,7 @@ impl Connection {
                 .map(|x| x.into_inner()),
             idle_timeout: self.idle_timeout,
             has_zero_rtt_keys: self.zero_rtt_crypto.is_some(),
+            authed_packets: self.total_authed_packets,
         }
     }
 }
